@@ -16,6 +16,9 @@ import (
 	"github.com/ethereum/go-ethereum/accounts/abi"
 	"github.com/ethereum/go-ethereum/common"
 
+	authtypes "github.com/cosmos/cosmos-sdk/x/auth/types"
+
+	"github.com/haqq-network/haqq/crypto/ethsecp256k1"
 	erc20types "github.com/haqq-network/haqq/x/erc20/types"
 	evmtypes "github.com/haqq-network/haqq/x/evm/types"
 	zz "github.com/haqq-network/haqq/zzverif"
@@ -30,6 +33,7 @@ var c10s struct {
 	approval       bool
 	transferCalls  int
 	converted      int
+	pair           *erc20types.TokenPair // the registered pair GetTokenPair answers with (nil: none)
 }
 
 func c10sUnpackInto(a abi.ABI, v interface{}, name string, data []byte) error {
@@ -54,12 +58,15 @@ func (b c10sBank) GetBalance(ctx sdk.Context, addr sdk.AccAddress, denom string)
 // c10sEK: the erc20 keeper; the token contract behind it answers whatever it likes.
 type c10sEK struct{}
 
-func (c10sEK) IsERC20Enabled(ctx sdk.Context) bool                       { return true }
-func (c10sEK) GetTokenPairID(ctx sdk.Context, token string) []byte       { return []byte{1} }
-func (c10sEK) GetTokenPairs(ctx sdk.Context) []erc20types.TokenPair      { return nil }
+func (c10sEK) IsERC20Enabled(ctx sdk.Context) bool                  { return true }
+func (c10sEK) GetTokenPairID(ctx sdk.Context, token string) []byte  { return []byte{1} }
+func (c10sEK) GetTokenPairs(ctx sdk.Context) []erc20types.TokenPair { return nil }
 func (c10sEK) IterateTokenPairs(ctx sdk.Context, cb func(tokenPair erc20types.TokenPair) (stop bool)) {
 }
 func (c10sEK) GetTokenPair(ctx sdk.Context, id []byte) (erc20types.TokenPair, bool) {
+	if c10s.pair != nil {
+		return *c10s.pair, true
+	}
 	return erc20types.TokenPair{}, false
 }
 func (c10sEK) BalanceOf(ctx sdk.Context, a abi.ABI, contract, account common.Address) *big.Int {
@@ -109,6 +116,63 @@ func VerifC10_BankSendWrapper() {
 		zz.Assert(!c10s.approval, "a send during which the foreign token emitted an Approval event is refused")
 		zz.Assert(c10s.returns, "a send whose transfer() returned false is refused")
 		zz.Reach("?erc20-origin-accepted")
+	}
+	zz.Reach("end")
+}
+
+// c10sAK: the account keeper behind the wrapper.
+type c10sAK struct{ accs map[string]authtypes.AccountI }
+
+func (a *c10sAK) GetAccount(ctx sdk.Context, addr sdk.AccAddress) authtypes.AccountI {
+	return a.accs[string(addr)]
+}
+func (a *c10sAK) HasAccount(ctx sdk.Context, addr sdk.AccAddress) bool {
+	_, ok := a.accs[string(addr)]
+	return ok
+}
+func (a *c10sAK) SetAccount(ctx sdk.Context, acc authtypes.AccountI) {
+	a.accs[string(acc.GetAddress())] = acc
+}
+func (a *c10sAK) NewAccountWithAddress(ctx sdk.Context, addr sdk.AccAddress) authtypes.AccountI {
+	return authtypes.NewBaseAccount(addr, nil, 99, 0) // a brand-new account: next account number, sequence 0, no key
+}
+
+func (b c10sBank) SendCoins(ctx sdk.Context, from, to sdk.AccAddress, amt sdk.Coins) error {
+	return nil
+}
+
+// VerifC03_BankSendKeepsRecipientAccount: receiving a coin through the bank send wrapper (the ERC20-pair path creates the
+// recipient's account when it does not exist) never touches an account that does exist: its sequence - the replay counter
+// of every Ethereum and Cosmos transaction it has signed - its account number and its key stay as they were.
+func VerifC03_BankSendKeepsRecipientAccount() {
+	env := zz.NewEnv([]string{"bank"}, nil)
+	from := sdk.AccAddress([]byte{1, 2, 3, 4, 5, 6, 7, 8, 9, 10, 11, 12, 13, 14, 15, 16, 17, 18, 19, 20})
+	to := sdk.AccAddress([]byte{2, 2, 3, 4, 5, 6, 7, 8, 9, 10, 11, 12, 13, 14, 15, 16, 17, 18, 19, 20})
+	pair := erc20types.TokenPair{Erc20Address: "0xE000000000000000000000000000000000000001", Denom: "acoin", Enabled: true, ContractOwner: erc20types.OWNER_MODULE}
+	c10s.pair = &pair
+	amt := zz.AnyAmount("amount", 64)
+	zz.Assume(amt.IsPositive())
+	before := zz.AnyBigAmount("token.receiverBefore", 64)
+	// an honest token: the sender holds enough tokens, the receiver is credited exactly the amount
+	c10s.balanceAnswers, c10s.nBalance = []*big.Int{new(big.Int).Lsh(big.NewInt(1), 100), before, new(big.Int).Add(before, amt.BigInt())}, 0
+	c10s.returns, c10s.approval, c10s.transferCalls, c10s.converted = true, false, 0, 0
+	ak := &c10sAK{accs: map[string]authtypes.AccountI{}}
+	exists := zz.AnyBool("recipientExists")
+	seq, num := zz.AnyUint64("recipient.sequence"), zz.AnyUint64("recipient.accountNumber")
+	if exists {
+		ak.accs[string(to)] = authtypes.NewBaseAccount(to, &ethsecp256k1.PubKey{Key: make([]byte, 33)}, num, seq)
+	}
+	k := msgServer{WrappedBaseKeeper{Keeper: c10sBank{spendable: sdkmath.ZeroInt()}, ek: c10sEK{}, ak: ak}}
+	err := k.sendCoinsWithERC20(env.Ctx, from, to, sdk.NewCoins(sdk.NewCoin(pair.Denom, amt)))
+	zz.Assert(err == nil, "the send through an honest token succeeds")
+	acc := ak.accs[string(to)]
+	zz.Assert(acc != nil, "the recipient has an account afterwards")
+	if exists {
+		zz.Assert(acc.GetSequence() == seq && acc.GetAccountNumber() == num && acc.GetPubKey() != nil, "an existing recipient keeps its sequence, account number and key")
+		zz.Reach("existing")
+	} else {
+		zz.Assert(acc.GetSequence() == 0, "a new recipient starts at sequence 0")
+		zz.Reach("created")
 	}
 	zz.Reach("end")
 }
